@@ -404,6 +404,7 @@ def plan(tier):
     units += [('scale',) + (u[1],) for u in wrgraph.scale_units(tier, 6)[0]]
     units.append(('rewrite',))
     units.append(('equal-sections',))
+    units.append(('subclass',))
     return {
         'units': units,
         'rule': 'trees of shapes %r (files per change) built only through '
@@ -470,6 +471,47 @@ def nested_edits(tree):
     return out
 
 
+def check_subclass(order):
+    """The object model documents subclasses of DiffX (diffx_cls): a tree of
+    a subclass comes back as that subclass whatever other class parsed
+    something earlier in the process."""
+    class Sub(DiffX):
+        extra = 'api'
+
+    class Sibling(DiffX):
+        pass
+    base = DiffX(preamble='p\n', meta={'k': 'v'})
+    base.add_change().add_file(meta={'path': 'f'}, diff=SAMPLE_DIFF)
+    data = base.to_bytes()
+    try:
+        if order == 'base-first':
+            DiffX.from_bytes(data)
+        elif order == 'sibling-first':
+            Sibling.from_bytes(data)
+        t = Sub(preamble='p\n', meta={'k': 'v'})
+        t.add_change().add_file(meta={'path': 'f'}, diff=SAMPLE_DIFF)
+        back = Sub.from_bytes(t.to_bytes())
+        again = DiffX.from_bytes(data)
+    except Exception as e:
+        return [('subclass-roundtrip-raised:%s:%s' % (type(e).__name__,
+                                                      site_of(e)), repr(e))]
+    v = []
+    if type(back) is not Sub:
+        v.append(('subclass-roundtrip-wrong-class',
+                  '%s: Sub.from_bytes(...) returned a %s'
+                  % (order, type(back).__name__)))
+    elif fsnap(back) != fsnap(again) or \
+            back.to_bytes() != t.to_bytes():
+        v.append(('subclass-roundtrip-differs',
+                  '%s: the subclass tree reads back differently from the '
+                  'base-class tree of the same bytes' % order))
+    if type(again) is not DiffX:
+        v.append(('base-roundtrip-wrong-class',
+                  '%s: DiffX.from_bytes(...) returned a %s'
+                  % (order, type(again).__name__)))
+    return v
+
+
 def check_rewrite(ti, ei):
     """to_bytes(); edit ONE nested container in place; to_bytes() again:
     the second result is what a tree built from scratch in the new state
@@ -510,6 +552,20 @@ def check_rewrite(ti, ei):
 
 def run_unit(unit, tier):
     acc = Acc()
+    if unit[0] == 'subclass':
+        for order in ('base-first', 'sub-first', 'sibling-first'):
+            viols = check_subclass(order)
+            acc.evals += 1
+            acc.states += 1
+            acc.transitions += 3
+            acc.validated += 1
+            acc.nontrivial += 1
+            for key, msg in viols:
+                acc.violation(key, msg, {'kind': 'subclass', 'order': order})
+            acc.outcome('ok' if not viols else 'violation')
+        acc.sample({'subclasses_of_DiffX': 'round trip gives back the '
+                                           'subclass'}, 1)
+        return acc
     if unit[0] == 'equal-sections':
         for i in range(len(equal_section_docs())):
             viols = check_equal_doc(i)
@@ -592,6 +648,9 @@ def run_unit(unit, tier):
 
 
 def replay(payload):
+    if payload.get('kind') == 'subclass':
+        return [{'key': k, 'msg': m}
+                for k, m in check_subclass(payload['order'])]
     if payload.get('kind') == 'equal':
         return [{'key': k, 'msg': m} for k, m in check_equal_doc(payload['i'])]
     if payload.get('kind') == 'rewrite':
